@@ -184,9 +184,7 @@ func checkNewCall(
 		return nil
 	}
 
-	if ptr, ok := types.Unalias(t).(*types.Pointer); ok {
-		t = ptr.Elem()
-	}
+	// new(*T) allocates a pointer variable, not a T: only the argument type itself counts
 
 	named, ok := types.Unalias(t).(*types.Named)
 	if !ok {
